@@ -53,16 +53,19 @@ def write_elf(path, segs, ps=4096, machine="x86_64", elfclass=64, be=False, nuls
         else:
             ph += struct.pack(E + "IIIIIIII", 4, hdr_end, 0, 0, len(notes), len(notes), 0, 0)
     for s in segs:
-        pa = s["pfn"] * ps
+        if "paddr" in s:                      # byte-granular segment
+            pa, filesz, memsz = s["paddr"], s["filesz"], s["memsz"]
+        else:
+            pa = s["pfn"] * ps
+            memsz = s["npages"] * ps
+            filesz = s.get("filepages", s["npages"]) * ps
         va = (pa + s.get("voff", 0)) & (M64 if elfclass == 64 else 0xffffffff)
-        memsz = s["npages"] * ps
-        filesz = s.get("filepages", s["npages"]) * ps
         if elfclass == 64:
             ph += struct.pack(E + "IIQQQQQQ", 1, 7, off, va, pa, filesz, memsz, ps)
         else:
             ph += struct.pack(E + "IIIIIIII", 1, off, va, pa, filesz, memsz, 7, ps)
-        body.append((off, s["pfn"], filesz // ps))
-        off += filesz
+        body.append((off, pa, filesz))
+        off += (filesz + ps - 1) // ps * ps
     ident = b"\x7fELF" + bytes([2 if elfclass == 64 else 1, 2 if be else 1, 1, 0]) + b"\0" * 8
     if elfclass == 64:
         eh = ident + struct.pack(E + "HHIQQQIHHHHHH", etype, EM[machine], 1, 0, ehsz, 0, 0, ehsz, phsz, nph, 0, 0, 0)
@@ -70,10 +73,14 @@ def write_elf(path, segs, ps=4096, machine="x86_64", elfclass=64, be=False, nuls
         eh = ident + struct.pack(E + "HHIIIIIHHHHHH", etype, EM[machine], 1, 0, ehsz, 0, 0, ehsz, phsz, nph, 0, 0, 0)
     with open(path, "wb") as f:
         f.write(eh + ph + notes)
-        for o, pfn, n in body:
+        nulset = set(nuls)
+        for o, pa, n in body:
             f.seek(o)
-            for i in range(n):
-                f.write(page_bytes(pfn + i, ps, nuls))
+            if pa % ps == 0 and n % ps == 0:
+                for i in range(n // ps):
+                    f.write(page_bytes(pa // ps + i, ps, nuls))
+            else:
+                f.write(bytes(0 if (pa + i) in nulset else content_byte(pa + i) for i in range(n)))
         f.truncate(max(off, f.tell()))
 
 
